@@ -17,7 +17,12 @@
     - [Arr_tx_liquid_eq]    : a transaction that executes no WithdrawUnbonded and hands no usei to the
                               hub except as the payment of a bond leaves the hub's usei balance exactly
                               unchanged (variant of BooksLiquid.tx_liquid_eq under [Arr_NR], which — unlike
-                              [NoRewardsToHub] — also holds before the withdraw address is configured). *)
+                              [NoRewardsToHub] — also holds before the withdraw address is configured);
+    - [Arr_advance_usum]    : after an advance, for every window [P], what remains in flight is what
+                              was in flight with completion later than the new block time;
+    - [Arr_step_usum]       : one executed message leaves clock and chain unbonding time alone and adds
+                              to the hub's in-flight coins exactly its amount if it is an Undelegate sent
+                              by the hub ([Arr_und_amt]), completing at now + chain unbonding time. *)
 From Krp Require Import Tactics Prelude Fixed FMap Types Env Registry Cw20 Reward Dispatcher Hub Exec
      ExecP Hist Inv RegistryP HubFrame HubAdmin RewardWorld BooksEnv BooksHub BooksP BooksLiquid IndexEnv LifeP.
 Open Scope N_scope.
@@ -198,7 +203,7 @@ Proof.
                <= Arr_hubamt P (x, v', a, t)).
   { destruct (v' =? v); [|lia]. unfold Arr_hubamt. destruct ((x =? A_hub) && P t); [|lia].
     apply slash_amt_le; assumption. }
-  lia.
+  apply N.add_le_mono; [exact Hh | exact IH].
 Qed.
 
 (** ** 4. one executed message: unbonding entries and the chain's unbonding time *)
@@ -461,4 +466,47 @@ Proof.
     - constructor; [|constructor]. intros E. cbn [fst snd] in *. apply Hs. exact E.
     - unfold pD, hub_d. cbn [map sumN fst snd dmsg_amt]. destruct (sender =? A_hub); lia. }
   destruct L as (_ & _ & L1 & L). unfold pD in L. cbn [map sumN] in L. split; [lia | exact L1].
+Qed.
+
+(** ** 7. the forms used by Arrival.v *)
+
+(** after an advance the entries that remain are exactly those completing later than the new block
+    time, with unchanged amounts: for every window [P] *)
+Lemma Arr_advance_usum e dt P :
+  Arr_usum P (ev_advance e dt) = Arr_usum (fun t => P t && negb (t <=? e_now e + dt)) e.
+Proof.
+  unfold ev_advance, Arr_usum.
+  pose proof (Arr_deliver_spec (set_now e (e_now e + dt))) as H. cbn zeta in H.
+  destruct H as (H1 & _). cbn [e_now e_unb set_now] in H1. rewrite H1.
+  apply (Arr_lsumU_filter_time P (fun t => negb (t <=? e_now e + dt))).
+Qed.
+
+Lemma Arr_advance_frame e dt :
+  e_now (ev_advance e dt) = e_now e + dt /\ e_ut (ev_advance e dt) = e_ut e /\
+  e_pend (ev_advance e dt) = e_pend e /\ e_wdaddr (ev_advance e dt) = e_wdaddr e /\
+  bal (ev_advance e dt) A_hub usei = bal e A_hub usei + Arr_fle e (e_now e + dt).
+Proof.
+  pose proof (Arr_advance_spec e dt) as H. cbn zeta in H.
+  destruct H as (A1 & A2 & A3 & A4 & A5 & _). auto.
+Qed.
+
+(** amount of an Undelegate message whose sender is the hub *)
+Definition Arr_und_amt (sm : addr * cmsg) : N :=
+  if fst sm =? A_hub then match snd sm with MUndelegate _ c => snd c | _ => 0 end else 0.
+
+(** one executed message: block time and chain unbonding time are unchanged; the hub's in-flight
+    coins grow by exactly the amount of the message if it is an Undelegate of the hub *)
+Theorem Arr_step_usum w s m w' out P :
+  step_msg w s m = Some (w', out) ->
+  e_now (w_env w') = e_now (w_env w) /\ e_ut (w_env w') = e_ut (w_env w) /\
+  Arr_usum P (w_env w') =
+  Arr_usum P (w_env w) + (if P (e_now (w_env w) + e_ut (w_env w)) then Arr_und_amt (s, m) else 0).
+Proof.
+  intros H. pose proof (step_msg_now _ _ _ _ _ H) as Hn.
+  destruct (Arr_step_env _ _ _ _ _ H) as [Hu He]. split; [exact Hn|]. split; [exact Hu|].
+  unfold Arr_usum. rewrite He, Arr_lsumU_app. f_equal.
+  unfold Arr_und_amt. cbn [fst snd].
+  destruct m; try (rewrite Arr_lsumU_nil; destruct (s =? A_hub), (P _); reflexivity).
+  rewrite Arr_lsumU_cons, Arr_lsumU_nil.
+  destruct (s =? A_hub), (P (e_now (w_env w) + e_ut (w_env w))); cbn [andb]; lia.
 Qed.
